@@ -119,6 +119,16 @@ def build_state(spec):
     return ops, psi
 
 
+def try_build(ctx, spec):
+    """the random initialisers may refuse a spec (e.g. 'Random mps is a zero state'): not a case of the property"""
+    from yastn import YastnError
+    try:
+        return build_state(spec)
+    except YastnError as e:
+        ctx.count("state_spec_refused_by_initialiser")
+        return None, None
+
+
 def gen_state_spec(rng, quick, dense=True, nr_phys=None, Nmax=None):
     fam, sym = rng.choice(FAMILIES)
     d = LOCAL_DIM[fam]
@@ -128,7 +138,7 @@ def gen_state_spec(rng, quick, dense=True, nr_phys=None, Nmax=None):
         while (d ** nr) ** nmax > DENSE_CAP:
             nmax -= 1
     N = rng.randint(1, max(nmax, 1))
-    if rng.random() < 0.5:
+    if rng.random() < 0.25:
         N = max(N, min(nmax, 3))
     kind = rng.choice(["random", "random", "random", "product", "ghz", "ghz", "dup", "sum"])
     base = [rng.randrange(d) for _ in range(N)]
@@ -198,6 +208,8 @@ def dense_svals(v, N, nr, k):
 def site_isometry_defect(T, nr, g):
     """‖A†A − 1‖ (g='L', contracted over legs 0,1[,3]) or ‖A A† − 1‖ (g='R', over legs 1,2[,3]) by NumPy"""
     a = T.to_numpy()
+    if a.size == 0:
+        return 0.0      # a tensor without blocks (zero state after an undocumented truncation): vacuous
     if nr == 2:
         a = a.transpose(0, 1, 3, 2)
     if g == "L":
@@ -354,6 +366,7 @@ def observables_check(ctx, psi, ops, case, where, v=None):
         return
     key0 = dict(case=case, concrete=True)
     nrm = psi.norm()
+    _obs("norm", abs(nrm - nv) / nv)
     if abs(nrm - nv) > TOL * nv:
         ctx.fail("oracle", "c08:norm", f"{where}: norm()={nrm!r} but dense norm={nv!r}", **key0)
     sv = psi.get_Schmidt_values()
@@ -367,11 +380,13 @@ def observables_check(ctx, psi, ops, case, where, v=None):
         ref = dense_svals(v, N, nr, k) / nv
         got = diag_values(sv[k])
         err = pad_compare(ref, got)
+        _obs("schmidt", err)
         if err > TOL:
             ctx.fail("oracle", "c08:schmidt", f"{where}: Schmidt values across cut {k} differ from the dense SVD by {err:.3e}: "
                      f"{got[:6].tolist()} vs {ref[:6].tolist()}", **key0)
         for alpha, ent in ((1, ent1), (2, ent2)):
             e_ref = ref_entropy(ref ** 2, alpha)
+            _obs("entropy", abs(float(ent[k]) - e_ref))
             if abs(float(ent[k]) - e_ref) > 1e-8:
                 ctx.fail("oracle", "c08:entropy", f"{where}: entropy(alpha={alpha}) across cut {k} is {float(ent[k])!r}, dense {e_ref!r}", **key0)
         if bd is not None:
@@ -379,6 +394,15 @@ def observables_check(ctx, psi, ops, case, where, v=None):
             if bd[k] < rank:
                 ctx.fail("oracle", "c08:bond-dim", f"{where}: bond dimension {bd[k]} at cut {k} below the Schmidt rank {rank}", **key0)
     ctx.count("observables_checked")
+
+
+OBSERVED = {}
+
+
+def _obs(name, val):
+    """largest deviation seen per observable (goes to the evidence: tolerances must stay ≥100× above)"""
+    if val == val and val != float("inf") and val > OBSERVED.get(name, 0.0):
+        OBSERVED[name] = float(val)
 
 
 def same_state(v, ref, normalized):
@@ -395,7 +419,9 @@ def run_program(ctx, case, model=None):
     """Execute case['calls'] on the real object; compare with the model snapshots (if a driver answer is given)
     and evaluate the dense oracles when case['dense']."""
     from yastn import YastnError
-    ops, psi = build_state(case["state"])
+    ops, psi = try_build(ctx, case["state"])
+    if psi is None:
+        return
     N, nr = psi.N, psi.nr_phys
     dense = bool(case.get("dense"))
     ref = dense_state(psi, ops) if dense else None
@@ -429,27 +455,33 @@ def run_program(ctx, case, model=None):
             m = model[i] if model is not None else None
             where = f"call {i} {c}"
             if m is not None:
+                pc = None if psi.pC is None else list(psi.pC)
+                ints, tups = keys_of(psi)
+                bad = None
                 if err != m["err"]:
                     if tainted and err == "yastn" and m["err"] is None:
                         ctx.count("trace:aborted-after-remove")
                         return
-                    ctx.fail("correspondence", "c08:trace:error", f"{where}: real raised {err} ({emsg if err else ''}) but the model says {m['err']}", **fk)
-                    return
-                pc = None if psi.pC is None else list(psi.pC)
-                ints, tups = keys_of(psi)
-                if pc != m["pC"]:
-                    ctx.fail("correspondence", "c08:trace:pC", f"{where}: real pC={pc}, model {m['pC']}", **fk)
-                    return
-                if ints != list(range(N)) or tups != sorted(m["bonds"]):
-                    ctx.fail("correspondence", "c08:trace:keys", f"{where}: real keys {ints}+{tups}, model sites+{m['bonds']}", **fk)
-                    return
-                if ev != m["trace"]:
-                    ctx.fail("correspondence", "c08:trace:prims", f"{where}: primitive calls {ev} but the model says {m['trace']}", **fk)
-                    return
-                if m["unit"] and not (psi.factor == 1):
-                    ctx.fail("oracle", "c08:factor-not-reset", f"{where}: normalize=True step left factor={psi.factor!r} (must be 1)", **ok)
-                ctx.count("trace:calls_compared")
-                ctx.count(f"trace:err:{err}")
+                    bad = ("c08:trace:error", f"{where}: real raised {err} ({emsg if err else ''}) but the model says {m['err']}")
+                elif pc != m["pC"]:
+                    bad = ("c08:trace:pC", f"{where}: real pC={pc}, model {m['pC']}")
+                elif ints != list(range(N)) or tups != sorted(m["bonds"]):
+                    bad = ("c08:trace:keys", f"{where}: real keys {ints}+{tups}, model sites+{m['bonds']}")
+                elif ev != m["trace"]:
+                    bad = ("c08:trace:prims", f"{where}: primitive calls {ev} but the model says {m['trace']}")
+                if bad is not None:
+                    # model and code disagree (not by itself a violation): stop comparing, keep evaluating the
+                    # model-independent oracles on the rest of the program
+                    ctx.fail("correspondence", bad[0], bad[1], **fk)
+                    model = None
+                    m = None
+                else:
+                    if m["unit"] and not (psi.factor == 1):
+                        ctx.fail("oracle", "c08:factor-not-reset", f"{where}: normalize=True step left factor={psi.factor!r} (must be 1)", **ok)
+                    ctx.count("trace:calls_compared")
+                    ctx.count(f"trace:err:{err}")
+            if err not in (None, "yastn", "key"):
+                return
             if err == "key":
                 corrupt = True
             if c[0] == "remove" and had_centre and err is None:
@@ -471,8 +503,12 @@ def run_program(ctx, case, model=None):
                     if g in ("L", "R"):
                         dfc = site_isometry_defect(psi.A[n], nr, g)
                         ctx.count("isometry_checked")
+                        _obs("isometry", dfc)
                         if dfc > TOL:
                             ctx.fail("oracle", "c08:isometry", f"{where}: site {n} must be a {g}-isometry, defect {dfc:.3e}", **ok)
+                            return
+                        if psi.pC is None and not psi.is_canonical(to="last" if g == "L" else "first", n=n, tol=1e-10):
+                            ctx.fail("oracle", "c08:is_canonical", f"{where}: is_canonical(n={n}) is False on a {g}-isometric site", **ok)
                             return
                 full = all(g == m["gauge"][0] for g in m["gauge"]) and m["gauge"][0] in ("L", "R") and psi.pC is None
                 if full:
@@ -488,6 +524,7 @@ def run_program(ctx, case, model=None):
             if preserving:
                 nm = err is None and call_normalize(c) and (c[0] != "diag" or had_centre)
                 dev = same_state(v, ref, nm)
+                _obs("state", dev)
                 ctx.count("state_invariance_checked")
                 if dev > TOL:
                     ctx.fail("oracle", "c08:state-changed", f"{where}: represented state changed by {dev:.3e} (relative{', direction' if nm else ''})", **ok)
@@ -592,7 +629,7 @@ def gen_program(rng, quick, dense):
                 calls.append(["absorb", "middle"])
                 centre = None
     case = {"mode": "program", "state": st, "calls": calls, "dense": dense,
-            "observe_at": rng.choice([-1] + list(range(len(calls)))) if dense and rng.random() < 0.5 else None,
+            "observe_at": rng.choice([-1] + list(range(len(calls)))) if dense and rng.random() < 0.8 else None,
             "final_absorb": rng.choice(dirs)}
     return case
 
@@ -623,7 +660,9 @@ def frac_of_float(x):
 def run_truncate(ctx, case, refold_queue=None):
     """binding truncate_ on a state in the documented opposite canonical form (or, `prepared=False`, on a raw
     state: then only the claims that do not need the canonical form are checked)."""
-    ops, psi = build_state(case["state"])
+    ops, psi = try_build(ctx, case["state"])
+    if psi is None:
+        return
     N, nr = psi.N, psi.nr_phys
     to, opts, nm = case["to"], case["opts"], case["normalize"]
     prepared = case["prepared"]
@@ -694,6 +733,7 @@ def run_truncate(ctx, case, refold_queue=None):
     if n1 > 0:
         c = np.vdot(v1, v0) / n1 ** 2        # orthogonal projection of v0 on span(v1)
         dist = float(np.linalg.norm(v0 - c * v1) / n0)
+        _obs("distance", abs(dist - ret))
         if abs(dist - ret) > TOL_D:
             ctx.fail("oracle", "c08:truncate:distance", f"returned discarded weight {ret!r} but relative distance to the truncated state is {dist!r}", **ok)
         if not nm:
@@ -716,6 +756,7 @@ def run_truncate(ctx, case, refold_queue=None):
         coef = np.vdot(post, pre) / npost ** 2
         proj = coef * post
         dloc = float(np.linalg.norm(pre - proj) / npre)
+        _obs("cut-distance", abs(dloc - cdat["d"]))
         if abs(dloc - cdat["d"]) > TOL_D:
             ctx.fail("oracle", "c08:cut:distance", f"{where}: diagonalize_central_ returned {cdat['d']!r} but the relative distance of the "
                      f"state before/after the cut is {dloc!r}", **ok)
@@ -755,6 +796,7 @@ def run_truncate(ctx, case, refold_queue=None):
         res = pre - proj
         c1 = abs(np.vdot(proj, res)) / npre ** 2
         c2 = abs(np.vdot(v1, res)) / (npre * n1) if n1 else 0.0
+        _obs("nested-projection", max(c1, c2))
         if c1 > TOL_D or c2 > TOL_D:
             ctx.fail("contract", "c08:contract:nested-projection", f"{where}: <P psi, psi - P psi>={c1:.3e}, <psi_final, residual>={c2:.3e}",
                      case=case, concrete=False)
@@ -780,6 +822,7 @@ def flush_refolds(ctx, queue):
     for (case, ds, ret), (num, den) in zip(queue, res["res"]):
         tot2 = Fraction(int(num), int(den))
         model = math.sqrt(tot2)
+        _obs("refold", abs(model - ret))
         ctx.count("refold:compared")
         if abs(model - ret) > TOL_FOLD:
             ctx.fail("correspondence", "c08:refold", f"Lean accumulate gives sqrt={model!r} for per-cut weights {ds}, real truncate_ returned {ret!r}",
@@ -835,11 +878,12 @@ def run(ctx):
                 "(quick ≤5, dense references need d^N ≤ 2^14)) × random sequences of the six in-place methods (legal ~88%, illegal "
                 "direction/site/centre ~12%); non-trivial = distinct (state spec, call list). truncation cases: state prepared in the "
                 "opposite canonical form (85%) × to × opts(D_total/tol/D_block/tol_block) × normalize; non-trivial = some cut discards weight")
-    budget = 38 if quick else 600
+    budget = 40 if quick else 600
     t0 = time.time()
-    n_trace = 110 if quick else 1500
-    n_dense = 60 if quick else 900
-    n_trunc = 70 if quick else 1000
+    OBSERVED.clear()
+    n_trace = 150 if quick else 1500
+    n_dense = 120 if quick else 1200
+    n_trunc = 160 if quick else 1500
     # --- (i) trace programs without dense references (all lengths 1..7, all families)
     cases = [gen_program(rng, quick, dense=False) for _ in range(n_trace)]
     cases += [gen_program(rng, quick, dense=True) for _ in range(n_dense)]
@@ -874,6 +918,8 @@ def run(ctx):
         ctx.count(f"kind={st['kind']}")
         ctx.count("mpo" if st["nr_phys"] == 2 else "mps")
     flush_refolds(ctx, queue)
+    ctx.extra["largest_observed_deviation"] = dict(OBSERVED)
+    ctx.extra["tolerances"] = {"dense": TOL, "distance": TOL_D, "fold": TOL_FOLD, "entropy": 1e-8}
     ctx.assumptions += [
         "QR/SVD of the backend satisfy their contracts (Q†Q=1, A=QR; U†U=1, VV†=1, A=USV): validated numerically on every case, not proved",
         "the identification of yastn's local truncation with a nested orthogonal projector is validated numerically (contract c08:contract:nested-projection), not proved",
@@ -889,9 +935,7 @@ def search(ctx, broken, budget_s):
     while time.time() - t0 < budget_s and not any(f.concrete for f in ctx.findings):
         case = gen_program(rng, True, dense=True)
         m = model_traces(ctx, [case])[0]
-        n_before = len(ctx.findings)
         _guarded(ctx, run_program, case, m)
-        del ctx.findings[n_before:][:0]
         case = gen_trunc_case(rng, True)
         _guarded(ctx, run_truncate, case, None)
 
